@@ -645,7 +645,7 @@ func (g *genCtx) genSite(si int, x string, primary, force bool) {
 	}
 }
 
-var prmDocDefects = []string{"resource-other", "resource-other", "resource-other", "resource-empty", "resource-extended", "resource-slash", "resource-origin",
+var prmDocDefects = []string{"resource-other", "resource-other", "resource-other", "resource-self", "resource-self", "resource-empty", "resource-extended", "resource-slash", "resource-origin",
 	"as-script", "as-script", "as-mixed-script", "as-http", "as-empty", "garbage", "500", "wrong-ct"}
 
 func gen(rt *rapid.T) Script {
@@ -734,7 +734,7 @@ func gen(rt *rapid.T) Script {
 		// The unsafe location would serve a perfectly matching document.
 		g.add(Entry{URL: chal, Status: 200, CT: "application/json", Body: mustJSON(map[string]any{"resource": s.MCP, "authorization_servers": []string{x}}), Label: "prm-chal:unsafe-location"})
 	default:
-		switch rapid.IntRange(0, 4).Draw(rt, "chal-kind") {
+		switch rapid.IntRange(0, 5).Draw(rt, "chal-kind") {
 		case 0: // none
 		case 1:
 			chal = locs[0].URL // the canonical location
@@ -744,6 +744,8 @@ func gen(rt *rapid.T) Script {
 			chal = "https://meta.example/prm/for-mcp"
 		case 4:
 			chal = "http://localhost:7000/prm"
+		case 5:
+			chal = "https://meta.example/.well-known/oauth-protected-resource" // another host's own root document location
 		}
 	}
 	var chalURLs []string
@@ -797,6 +799,14 @@ func gen(rt *rapid.T) Script {
 				d["resource"] = l.Resources[0] + rapid.SampledFrom([]string{"x", "/sub", "?a=1", "#f"}).Draw(rt, "res-ext")
 				d["authorization_servers"] = []string{evilAS}
 				addSite(evilAS)
+			case "resource-self":
+				// A document that describes the host it is served from (a valid document - for that host), naming
+				// that host's authorization server: not the resource that was asked for unless it is the same host.
+				if lu, err := url.Parse(l.URL); err == nil && lu.Scheme+"://"+lu.Host != origin {
+					d["resource"] = lu.Scheme + "://" + lu.Host
+					d["authorization_servers"] = []string{evilAS}
+					addSite(evilAS)
+				}
 			case "resource-slash":
 				// Differs by a trailing slash only: the oracle accepts either outcome.
 				d["resource"] = toggleSlash(l.Resources[0])
